@@ -113,7 +113,7 @@ fn alphabet(n: usize, tier: Tier) -> Vec<Dev> {
 pub fn programs(tier: Tier) -> ProgramSet {
     let plan: Vec<(usize, usize)> = match tier {
         Tier::Quick => vec![(3, 1), (2, 2)],
-        Tier::Thorough => vec![(3, 2), (2, 3)],
+        Tier::Thorough => vec![(3, 2), (2, 3), (3, 3)],
     };
     let mut out = Vec::new();
     let mut seen = std::collections::HashSet::new();
